@@ -151,6 +151,154 @@ def check_premises(ctx, prog, rule, required):
     ctx._premises_done = done
 
 
+def _std_upper(name):
+    m = re.match(r"num::from_be_bytes\(array\((.*)\)\)$", name)
+    if m:
+        k = m.group(1).count(", ") + 1
+        if k in (1, 2, 4):
+            return (1 << (8 * k)) - 1
+    if name.startswith("BigEndian::read_u16("):
+        return 65535
+    if name.startswith("common::padding("):
+        return 3
+    return None
+
+
+def _std_contracts():
+    """callee contracts the whole-function route may assume; each is established elsewhere in the same check family:
+    check_buffer_boundaries / fill_padding_value / slice::get (R3.5, R14.6), encoders Ok(n) => n <= len(output) (R14.4)"""
+    from .. import linproof as LP
+    from .. import client as C
+
+    def c_cbb(w, e, args, suffix, variant):
+        if suffix == "" and variant == "Ok":
+            return [LP.add(w.L.len_lin(args[0]), w.L.lin(args[1]), -1)]
+        return []
+
+    def c_get(w, e, args, suffix, variant):
+        if suffix == "" and variant == "Some" and len(args) == 2 and isinstance(args[1], tuple) and args[1][0] == "Range":
+            a, b = w.L.lin(args[1][1]), w.L.lin(args[1][2])
+            return [LP.add(b, a, -1), LP.add(w.L.len_lin(args[0]), b, -1)]
+        return []
+
+    def c_enc(w, e, args, suffix, variant):
+        # X::encode(&value, &mut slice) = Ok(n) => n <= len(slice)
+        if suffix == "" and variant == "Ok" and len(args) == 2:
+            n = w.L.lin(((C.short(e[1]),) + tuple(args), ".ok"))
+            return [LP.add(w.L.len_lin(args[1]), n, -1)]
+        return []
+    INT = {"u16": 2, "u32": 4, "u64": 8}
+
+    def c_int_enc(w, e, args, suffix, variant):
+        # <impl Encode for uN>::encode(&v, buf) = Ok(n) => n == N <= len(buf)      (verified: _int_codecs_ok)
+        m = re.search(r"<impl stun_rs::Encode for (u16|u32|u64)>::encode$", e[1])
+        if m and suffix == "" and variant == "Ok" and len(args) == 2:
+            n = w.L.lin(((C.short(e[1]),) + tuple(args), ".ok"))
+            k = INT[m.group(1)]
+            return [LP.add(n, {1: -k}), LP.add({1: k}, n, -1), LP.add(w.L.len_lin(args[1]), {1: -k})]
+        return []
+
+    def c_int_dec(w, e, args, suffix, variant):
+        # <impl Decode for uN>::decode(buf) = Ok((v, n)) => n == N <= len(buf)
+        m = re.search(r"<impl stun_rs::Decode<'\w+> for (u16|u32|u64)>::decode$", e[1])
+        if m and suffix == "" and variant == "Ok" and len(args) == 1:
+            n = w.L.lin(((C.short(e[1]),) + tuple(args), ".ok.1"))
+            k = INT[m.group(1)]
+            return [LP.add(n, {1: -k}), LP.add({1: k}, n, -1), LP.add(w.L.len_lin(args[0]), {1: -k})]
+        return []
+
+    def c_fixed1(w, e, args, suffix, variant):
+        # AddressFamily / ProtocolNumber encode: Ok(1), one byte written after check_buffer_boundaries(buf, 1)
+        if suffix == "" and variant == "Ok" and len(args) == 2:
+            n = w.L.lin(((C.short(e[1]),) + tuple(args), ".ok"))
+            return [LP.add(n, {1: -1}), LP.add({1: 1}, n, -1), LP.add(w.L.len_lin(args[1]), {1: -1})]
+        return []
+    return [(r"<impl stun_rs::Encode for (u16|u32|u64)>::encode$", c_int_enc), (r"<impl stun_rs::Decode<'\w+> for (u16|u32|u64)>::decode$", c_int_dec),
+            (r"<stun_rs::(types::AddressFamily|protocols::ProtocolNumber) as stun_rs::Encode>::encode$", c_fixed1),
+            (r"common::check_buffer_boundaries$", c_cbb), (r"common::fill_padding_value$", c_cbb),
+            (r"slice::<impl \[.*\]>::get(::<.*>)?$", c_get),
+            (r" as stun_rs::Encode>::encode$|<impl stun_rs::Encode for .*>::encode$", c_enc)]
+
+
+PROVABLE_KINDS = {"assert", "slice-index", "vec-index", "slice-op", "byteorder"}
+_fn_proofs = {}
+
+
+_helpers = {}
+
+
+def _safe_helpers(prog):
+    k = id(prog)
+    if k not in _helpers:
+        from ..cfg import cfg_of
+        out = []
+        for hb in prog.bodies.values():
+            if hb.crate not in ("stun_rs", "stun_agent") or hb.kind not in ("Fn", "AssocFn") or len(hb.blocks) > 14:
+                continue
+            if re.search(r"::(encode|decode|post_encode|validate|verify|fmt|new|from|try_from|into)$|check_buffer_boundaries$|fill_padding_value$|xor_|get_input_text", hb.path):
+                continue
+            if panics.sites_of(hb):
+                continue
+            try:
+                if cfg_of(hb).loop_heads():
+                    continue
+            except Exception:
+                continue
+            out.append(hb.path)
+        _helpers[k] = ["^(%s)$" % "|".join(re.escape(x) for x in sorted(out))] if out else []
+    return _helpers[k]
+
+
+def prove_function(prog, b):
+    """second discharge route for a whole function: explore it with concrete iterators (loops over fixed-size arrays
+    and constant ranges unroll) and MIR assertions logged, and prove every bounds / overflow / slice obligation met on
+    every path by linear reasoning (analysis/linproof.py).  Only attempted when every site of the function is of a
+    kind this route covers; -> (ok, obligations, why)"""
+    k = (id(prog), b.key)
+    if k in _fn_proofs:
+        return _fn_proofs[k]
+    from .. import client as C
+    from .. import linproof as LP
+    res = (False, 0, "not attempted")
+    try:
+        sites = panics.sites_of(b)
+        if any(s_.kind not in PROVABLE_KINDS for s_ in sites):
+            res = (False, 0, "has sites of kinds %s" % sorted({s_.kind for s_ in sites} - PROVABLE_KINDS))
+        elif b.kind == "Closure":
+            res = (False, 0, "closure (captured state unknown)")
+        elif len(b.blocks) > 90:
+            res = (False, 0, "large function (%d blocks): needs a dedicated invariant" % len(b.blocks))
+        else:
+            # stepped into: closures and the small helpers of the workspace that have no panic site of their own and no
+            # loop (getters, size functions); everything else stays opaque and is represented by its contract
+            step = [r"\{closure"] + _safe_helpers(prog) + ["^" + re.escape(b.path) + "$"]
+            paths, info = C.explore_fn(prog, b.path, "x", step, concrete_iters=True, log_asserts=True, memo_shared=True, max_paths=400)
+            if info["bounded"] or not paths:
+                res = (False, 0, "exploration incomplete")
+            else:
+                n = 0
+                failed = []
+                import time as _t
+                t_end = _t.time() + 20
+                for pa in paths:
+                    if _t.time() > t_end:
+                        failed.append("time budget of the whole-function route exceeded")
+                        break
+                    if any("widened" in repr(e) for e in pa.log if e[0] in ("assert", "call")):
+                        failed.append("loop with an unknown bound (widened counter)")
+                        break
+                    w = LP.Walker(pa, [], contracts=_std_contracts(), upper=_std_upper).run()
+                    n += w.n
+                    failed.extend(w.failed)
+                    if failed:
+                        break
+                res = (not failed and n > 0, n, "; ".join(failed[:2]) or "%d linear obligations on %d paths" % (n, len(paths)))
+    except Exception as e:      # never take the check down: not proved
+        res = (False, 0, "prover error %r" % (e,))
+    _fn_proofs[k] = res
+    return res
+
+
 def check_sites(ctx, prog, rule, prop, seen, config_label="", exclude_fn=None, only_kinds=None):
     """discharge every site of every reachable body or count it against the reviewed budget.
     returns statistics."""
@@ -182,6 +330,15 @@ def check_sites(ctx, prog, rule, prop, seen, config_label="", exclude_fn=None, o
                 n_dis += 1
             else:
                 g["undischarged"].append((s, why))
+    # second route: whole-function linear proof over unrolled loops, for functions the site prover could not finish
+    for fnb in {g["fn"].key: g["fn"] for g in groups.values() if g["undischarged"]}.values():
+        ok, nobl, why = prove_function(prog, fnb)
+        if ok:
+            for (fnp, sk), g in groups.items():
+                if g["fn"].key == fnb.key and g["undischarged"]:
+                    n_dis += len(g["undischarged"])
+                    g["unrolled"] = "%d site(s) discharged by the unrolled linear proof of the function (%s)" % (len(g["undischarged"]), why)
+                    g["undischarged"] = []
     for (fnp, sk), g in sorted(groups.items()):
         und = g["undischarged"]
         total = len(g["sites"])
@@ -195,8 +352,9 @@ def check_sites(ctx, prog, rule, prop, seen, config_label="", exclude_fn=None, o
             required.add(be["requires"])
         ok = len(und) <= allowed
         if ok:
-            detail = "%d site(s): %d discharged by the prover, %d within the reviewed budget (max %d%s)" % (
-                total, total - len(und), len(und), allowed, (": " + be["reason"]) if be is not None and und else "")
+            detail = "%d site(s): %d discharged by the prover, %d within the reviewed budget (max %d%s)%s" % (
+                total, total - len(und), len(und), allowed, (": " + be["reason"]) if be is not None and und else "",
+                ("; " + g["unrolled"]) if g.get("unrolled") else "")
             ctx.ob(rule, "sites:%s:%s%s" % (fnp, sk, config_label), True, detail, b.where(),
                    sample={"function": fnp, "site": sk, "sites": total, "discharged": total - len(und),
                            "budgeted": len(und), "example": und[0][1] if und else "all discharged"})
